@@ -1,6 +1,7 @@
 package mon
 
 import (
+	"bytes"
 	"context"
 	"fmt"
 	"sort"
@@ -57,6 +58,11 @@ func c06Execute(rc *RunCtx, i int, seedRand *core.Rand, steps []c06Step, storeKi
 	kind := world.StoreMem
 	if storeKind == "fs" {
 		kind = world.StoreMix
+	}
+	if storeKind == "fs-both" {
+		// FileSystemDataStore as MetaStore too: for flush-only histories its Update is a no-op
+		// (publication happens at Close), so "an error means nothing applied" holds trivially
+		kind = world.StoreFS
 	}
 	w := world.New(caseID, kind, v, tok)
 	defer w.Close()
@@ -167,7 +173,15 @@ func c06Execute(rc *RunCtx, i int, seedRand *core.Rand, steps []c06Step, storeKi
 					return false
 				}
 			}
+			// "error means absent" is stated for a MetaStore whose Update is atomic. With the
+			// directory itself as MetaStore a file is visible from its Close, so a failed
+			// Close-with-effect followed by a failed cleanup leaves it visible: that clause is
+			// only asserted there while at most one fault was reached.
+			absentClause := storeKind != "fs-both" || len(run.reached) <= 1
 			for vid := range res.VIDs {
+				if forbidden[vid] && !absentClause {
+					continue
+				}
 				if forbidden[vid] {
 					run.viol = fmt.Sprintf("%s: row %s of a batch answered with an error is visible on %s", when, vid, name)
 					return false
@@ -226,9 +240,21 @@ func c06Execute(rc *RunCtx, i int, seedRand *core.Rand, steps []c06Step, storeKi
 		run.wit = map[string]any{"store_calls": flushCalls(log)}
 		return run
 	}
-	// referenced files are complete and readable
-	if _, err := w.Inventory(); err != nil {
+	// referenced files are complete and readable, and describe themselves (a committed file that
+	// does not parse is not durable in any useful sense: a store that keeps metadata in the
+	// files, or a recovery tool, cannot see its rows)
+	inv, err := w.Inventory()
+	if err != nil {
 		run.viol = "a file referenced by the MetaStore is not readable: " + err.Error()
+	}
+	for _, f := range inv {
+		raw, rerr := w.FileBytes(f.Ptr)
+		if rerr != nil {
+			continue
+		}
+		if _, _, perr := bs.ReadFileMetadata(bytes.NewReader(raw)); perr != nil {
+			run.viol = fmt.Sprintf("file %s was committed to the MetaStore and its batches answered nil, but it does not parse with ReadFileMetadata: %v", f.Ptr, perr)
+		}
 	}
 	run.calls = flushCalls(log)
 	return run
@@ -254,7 +280,7 @@ func kindsOf(calls []stores.Call) string {
 
 func runC06(rc *RunCtx, i int) {
 	r := rc.CaseRand(i)
-	storeKind := core.Pick(r, []string{"mem", "mem", "mem-noabort", "mem-nogc", "fs"})
+	storeKind := core.Pick(r, []string{"mem", "mem", "mem-noabort", "mem-nogc", "fs", "fs-both", "fs-both"})
 	var steps []c06Step
 	ns := r.Range(4, 10)
 	for k := 0; k < ns; k++ {
